@@ -27,15 +27,18 @@ CONFIG = {
              "x internal nodes with label / taxon / nothing x edge lengths (absent, 0, ints <= 1e9, floats incl. "
              "1e-300, 1.5e+20, negative, mixed) x root-edge length x rooting {True,False,None} x weights x option "
              "pair (a)-(f) x translate_tree_taxa (NEXUS) x entry point (TreeList/Tree as_string/write(path) -> "
-             "TreeList.get/Tree.get incl. tree_offset). Sweep: every label of length 1 (quick) / <= 2 (thorough) over a "
-             "45-character alphabet as a leaf of a three-leaf tree x formats x label option pairs (a)-(d) x translate. "
+             "TreeList.get/Tree.get incl. tree_offset). Sweep: every label of length <= 2 (quick) / <= 3 (thorough) over a "
+             "45-character alphabet as a leaf of a three-leaf tree (length <= 2 also as an internal node label) x "
+             "formats x label option pairs (a)-(d) x translate. "
              "Non-trivial = a label with a character outside [A-Za-z0-9], or a non-default option pair, or a length "
              "written in scientific notation; distinct = (format, option pair, translate, label multiset, shapes)."),
     "exhaustive": {"quick": False, "thorough": False},
-    "exhaustive_note": {"quick": "sweep: all labels of length 1 over the 45-character alphabet (no leading/trailing "
-                                 "whitespace) x 13 format/option combinations",
-                        "thorough": "sweep: all labels of length <= 2 over the 45-character alphabet (no leading/"
-                                    "trailing whitespace) x 13 format/option combinations"},
+    "exhaustive_note": {"quick": "sweep: all 1 892 labels of length <= 2 over the 45-character alphabet (no leading/"
+                                 "trailing whitespace), as leaf taxon label and as internal node label, x 13 format/"
+                                 "option combinations",
+                        "thorough": "sweep: all 85 097 labels of length <= 3 over the 45-character alphabet (no "
+                                    "leading/trailing whitespace) as leaf taxon label (length <= 2 also as internal "
+                                    "node label) x 13 format/option combinations"},
     "assumptions": ["labels are non-empty, have no leading/trailing whitespace, contain printable ASCII, TAB and "
                     "non-ASCII letters only, and are pairwise distinct under str.lower()",
                     "every leaf carries a taxon; leaf node labels are not generated (not written by default)",
@@ -49,7 +52,7 @@ CONFIG = {
 SPECIAL = "()[]{}\\/,;:=*'\"`+-<>_ &#%!?.|~^@"
 STRUCTURAL = "(),:;"
 NONASCII = "éßΩж中ı"
-SWEEP_ALPHABET = SPECIAL + "\t" + "1" + "a" + "E" + "é"
+SWEEP_ALPHABET = SPECIAL + "$" + "\t" + "01" + "aEentux" + "éß"      # 45 characters
 WS = " \t"
 KEYWORDS = ["end", "END", "End", "tree", "TREE", "begin", "BEGIN", "endblock", "translate", "Translate", "taxlabels",
             "title", "link", "dimensions", "utree", "trees", "taxa", "#NEXUS", "end;", ";end", "tree ;", "end ;",
@@ -538,15 +541,12 @@ def check_case(ctx, case):
 # ---------------------------------------------------------------------------
 
 def sweep_labels(maxlen):
-    out = [c for c in SWEEP_ALPHABET if c not in WS]
-    if maxlen >= 2:
-        for a in SWEEP_ALPHABET:
-            if a in WS:
-                continue
-            for b in SWEEP_ALPHABET:
-                if b in WS:
-                    continue
-                out.append(a + b)
+    chars = [c for c in SWEEP_ALPHABET]
+    out = []
+    cur = [""]
+    for n in range(1, maxlen + 1):
+        cur = [p + c for p in cur for c in chars]
+        out.extend(l for l in cur if l[0] not in WS and l[-1] not in WS)
     return out
 
 
@@ -554,22 +554,37 @@ SWEEP_COMBOS = ([("newick", p, False) for p in "abcd"] + [("nexus", p, tr) for p
                 + [("nexml", "a", False)])
 
 
-def sweep_items(maxlen):
+def sweep_items(maxlen, maxlen_internal):
+    """(label as leaf taxon label | label as internal node label) x format/option combination."""
     items = []
     for n, lab in enumerate(sweep_labels(maxlen)):
         for m, (fmt, pair, tr) in enumerate(SWEEP_COMBOS):
-            items.append({"label": lab, "fmt": fmt, "pair": pair, "translate": tr, "pos": (n + m) % 3})
+            items.append({"label": lab, "fmt": fmt, "pair": pair, "translate": tr, "pos": (n + m) % 3, "as": "leaf"})
+            if len(lab) <= maxlen_internal:
+                items.append({"label": lab, "fmt": fmt, "pair": pair, "translate": tr, "pos": (n + m) % 3,
+                              "as": "internal"})
     return items
 
 
 def sweep_case(item):
-    """Expand a sweep item into a full case: three-leaf tree, the swept label at leaf `pos`."""
-    labels = ["Kx", "Ky"]
-    labels.insert(item["pos"], item["label"])
+    """Expand a sweep item into a full case: three-leaf tree, the swept label at leaf `pos` (as="leaf") or as the
+    node label of the clade holding leaves 1 and 2 / of the root (as="internal")."""
     lens = [1.5, None, 2]
-    spec = {"t": None, "lab": None, "len": None,
-            "ch": [{"t": i, "lab": None, "len": lens[(i + item["pos"]) % 3], "ch": []} for i in range(3)]}
-    return {"fmt": item["fmt"], "pair": item["pair"], "imode": "none", "labels": labels, "ns_order": [0, 1, 2],
+    pos = item["pos"]
+    if item.get("as", "leaf") == "leaf":
+        labels = ["Kx", "Ky"]
+        labels.insert(pos, item["label"])
+        spec = {"t": None, "lab": None, "len": None,
+                "ch": [{"t": i, "lab": None, "len": lens[(i + pos) % 3], "ch": []} for i in range(3)]}
+        imode = "none"
+    else:
+        labels = ["Kx", "Ky", "Kz"]
+        lf = [{"t": i, "lab": None, "len": lens[(i + pos) % 3], "ch": []} for i in range(3)]
+        inner = {"t": None, "lab": item["label"] if pos != 2 else None, "len": lens[pos], "ch": [lf[1], lf[2]]}
+        spec = {"t": None, "lab": item["label"] if pos == 2 else None, "len": None,
+                "ch": [lf[0], inner] if pos == 0 else [inner, lf[0]]}
+        imode = "label"
+    return {"fmt": item["fmt"], "pair": item["pair"], "imode": imode, "labels": labels, "ns_order": [0, 1, 2],
             "trees": [{"spec": spec, "rooted": None, "weight": None, "lenpat": "mixed"}],
             "translate": item["translate"], "route": "list_string", "k": 0, "list_rooting": None}
 
@@ -579,8 +594,9 @@ def check_sweep(ctx, item):
     lab = item["label"]
     for c in label_class(lab):
         ctx.cls("sweep_label:%s" % c)
-    ctx.cls("sweep:%s:%s%s" % (item["fmt"], item["pair"], ":translate" if item["translate"] else ""))
-    ctx.nontrivial(["sweep", item["fmt"], item["pair"], item["translate"], lab, item["pos"]])
+    ctx.cls("sweep:%s:%s%s:%s" % (item["fmt"], item["pair"], ":translate" if item["translate"] else "",
+                                  item.get("as", "leaf")))
+    ctx.nontrivial(["sweep", item["fmt"], item["pair"], item["translate"], lab, item["pos"], item.get("as", "leaf")])
     ctx.sample("sweep:%s" % item["fmt"], item)
     run_case(ctx, case, "sweep")
 
@@ -590,7 +606,7 @@ SUBCHECKS = {"random": check_case, "sweep": check_sweep}
 
 def run(ctx):
     quick = ctx.tier == "quick"
-    total = 8000 if quick else 160000
+    total = 6400 if quick else 160000
     maxl = 8 if quick else 30
     runner.run_given(ctx, "random", cases(maxl), check_case, total // ctx.nshards)
-    runner.run_items(ctx, "sweep", sweep_items(1 if quick else 2), check_sweep)
+    runner.run_items(ctx, "sweep", sweep_items(2, 2) if quick else sweep_items(3, 2), check_sweep)
